@@ -676,12 +676,39 @@ impl<'tcx> Cx<'tcx> {
     /// iterator method): its body is one straight-line block, which is interpreted directly.
     fn eval_promoted(&self, st: &mut State<'tcx>, uv: mir::UnevaluatedConst<'tcx>) -> Option<V<'tcx>> {
         let tcx = self.tcx;
-        let p = uv.promoted?;
-        let body = tcx.promoted_mir(uv.def).get(p)?;
+        let (body, inst) = match uv.promoted {
+            Some(p) => (tcx.promoted_mir(uv.def).get(p)?, Instance::new_raw(uv.def, uv.args)),
+            None => {
+                // an associated constant whose owner is still generic in the root's parameters but whose value is not
+                // (`<slice::Iter<'_, S> as TrustedRandomAccessNoCoerce>::MAY_HAVE_SIDE_EFFECT`): interpret its initialiser
+                let r0 = Instance::try_resolve(tcx, self.tenv, uv.def, uv.args);
+                let inst = r0.ok()??;
+                let did = inst.def_id();
+                if !matches!(tcx.def_kind(did), rustc_hir::def::DefKind::AssocConst { .. } | rustc_hir::def::DefKind::Const { .. }) {
+                    return None;
+                }
+                // (no query says whether a foreign constant's CTFE body was encoded: a missing one is an ICE, caught here)
+                // A boolean flag of core's iterator plumbing does not depend on the element type: evaluate it with the root's
+                // type parameters replaced by a plain scalar (only for bool constants defined in core / alloc / std).
+                let krate = tcx.crate_name(did.krate);
+                let cty = tcx.type_of(did).instantiate_identity().skip_norm_wip();
+                if cty.is_bool() && matches!(krate.as_str(), "core" | "alloc" | "std") {
+                    use rustc_middle::ty::TypeFoldable;
+                    let f32t = tcx.types.f32;
+                    let args2 = uv.args.fold_with(&mut ty::BottomUpFolder { tcx, ty_op: |t| if matches!(t.kind(), ty::Param(_)) { f32t } else { t }, lt_op: |l| l, ct_op: |c| c });
+                    let uv2 = mir::UnevaluatedConst { def: uv.def, args: args2, promoted: None };
+                    if let Ok(val) = mir::Const::Unevaluated(uv2, tcx.types.bool).eval(tcx, self.tenv, rustc_span::DUMMY_SP) {
+                        if let Some(s) = val.try_to_scalar_int() {
+                            return Some(V::Int(s.to_bits(s.size())));
+                        }
+                    }
+                }
+                return None;
+            }
+        };
         if body.basic_blocks.len() != 1 || !matches!(body.basic_blocks[mir::START_BLOCK].terminator().kind, TerminatorKind::Return) {
             return None;
         }
-        let inst = Instance::new_raw(uv.def, uv.args);
         let ncells = st.cells.len();
         let mut locals = vec![];
         for decl in body.local_decls.iter() {
@@ -1227,7 +1254,7 @@ impl<'tcx> Cx<'tcx> {
         }
         let ncells = st.cells.len();
         let saved = { let s = self.stats.borrow(); (s.leaves, s.steps) };
-        let mut run_arm = |bb: BasicBlock, val: u128| -> Option<(V<'tcx>, State<'tcx>)> {
+        let run_arm = |bb: BasicBlock, val: u128| -> Option<(V<'tcx>, State<'tcx>)> {
             let mut sub = st.clone();
             sub.frames.clear();
             let mut f = top.clone();
